@@ -8,8 +8,8 @@ from vf.runner import hyp_run, run_cases, guard, fail, exc_failure
 RULE = ("1-50 UBIs (random cells/orientations of a common cell family, plus near-twins = another grain x a lattice "
         "symmetry x (1+1e-4), exact duplicates, 2x sub-lattices) x peaks 1..1.2e5 (sizes straddling multiples of the "
         "4096 OpenMP chunk) = lattice points of a random owner + noise, or spurious x tol in [0.005,0.4] x a "
-        "permutation of the grain order x OpenMP threads in {1,2,3,7,16,32}; three entry points: raw "
-        "score_and_assign loop, indexer.fight_over_peaks, refinegrains.assignlabels with per-grain translations "
+        "permutation of the grain order x OpenMP threads in {1,2,3,7,16,32}; entry points: raw "
+        "score_and_assign loop (labels started at -1, and at 0 with grains numbered from 0 as the notebook helpers do), indexer.fight_over_peaks, refinegrains.assignlabels with per-grain translations "
         "and generated geometry (peaks forward simulated by the harness); oracle = dense argmin over the reference "
         "error matrix; non-trivial = >=2 grains index a common peak within tol, or n>4096 with threads>1; distinct "
         "= hash of the case")
@@ -160,6 +160,18 @@ def check(case, rec=None):
                                   "score_and_assign result differs between %s and %s (%d peaks)" %
                                   (keys[0], k, int((a[0][m] != b[0][m]).sum())), entry="score_and_assign"))
                 break
+        # ---- callers that start from labels = 0 and number grains from 0 (nb_utils.assign_peaks_to_grains,
+        #      sinogram.prepare_peaks_from_2d): unindexed peaks must end up unassigned (-1), not as grain 0
+        ref1 = dense_reference(ubis, [gv] * ng, tol, 1.0)
+        drlv2 = np.ones(n)
+        labels = np.zeros(n, np.int32)
+        for i in range(ng):
+            ok, cnt = guard(cImageD11.score_and_assign, ubis[i], gv, tol, drlv2, labels, int(i))
+            if not ok:
+                fails.append(exc_failure("score_and_assign", cnt))
+                break
+        else:
+            compare("score_and_assign loop from zero-initialised labels", labels, drlv2, ref1, 1.0, fails)
         # ---- indexer.fight_over_peaks
         cImageD11.cimaged11_omp_set_num_threads(case["threads"][-1])
         ix = indexing.indexer(gv=gv, hkl_tol=tol)
